@@ -100,17 +100,9 @@ func run(env *Env, chk *Check, res *Result) (int, error) {
 		}
 	}
 	if chk.NeedCLI {
-		bin := filepath.Join(env.Tmp, "gophersat")
-		cmd := exec.Command("go", "build", "-o", bin, ".")
-		cmd.Dir = "/repo"
-		if alt := os.Getenv("VERIF_DEV_REPO"); alt != "" {
-			cmd.Dir = alt
+		if err := buildCLI(env); err != nil {
+			return 2, err
 		}
-		cmd.Env = goEnv()
-		if b, err := cmd.CombinedOutput(); err != nil {
-			return 2, MachineryError{fmt.Sprintf("cannot build the gophersat executable from /repo: %v\n%s", err, b)}
-		}
-		os.Setenv("VERIF_GOPHERSAT", bin)
 	}
 	env.Logf("driver rebuilt from /repo (tag verif)")
 
@@ -235,6 +227,22 @@ func run(env *Env, chk *Check, res *Result) (int, error) {
 	return 0, nil
 }
 
+// buildCLI builds the gophersat executable from /repo (no build tag) for the cli driver.
+func buildCLI(env *Env) error {
+	bin := filepath.Join(env.Tmp, "gophersat")
+	cmd := exec.Command("go", "build", "-o", bin, ".")
+	cmd.Dir = "/repo"
+	if alt := os.Getenv("VERIF_DEV_REPO"); alt != "" {
+		cmd.Dir = alt
+	}
+	cmd.Env = goEnv()
+	if b, err := cmd.CombinedOutput(); err != nil {
+		return MachineryError{fmt.Sprintf("cannot build the gophersat executable from /repo: %v\n%s", err, b)}
+	}
+	os.Setenv("VERIF_GOPHERSAT", bin)
+	return nil
+}
+
 // pipeline = execute, validate, classify.
 func pipeline(env *Env, chk *Check, res *Result, cases []Case, open map[string]Finding, tag string) ([]Case, int, error) {
 	var follow []Case
@@ -243,6 +251,17 @@ func pipeline(env *Env, chk *Check, res *Result, cases []Case, open map[string]F
 		return nil, 2, err
 	}
 	env.Logf("%d cases executed on the real code", len(traces))
+	for _, t := range traces { // a failure of the harness itself is never a verdict
+		if evl, ok := t["ev"].([]any); ok {
+			for _, e := range evl {
+				if em, ok := e.(map[string]any); ok && em["op"] == "crash" {
+					if msg, _ := em["msg"].(string); strings.HasPrefix(msg, "harness:") {
+						return nil, 2, MachineryError{fmt.Sprintf("the driver failed on case %v: %s", t["id"], msg)}
+					}
+				}
+			}
+		}
+	}
 	byID := map[string]Case{}
 	inByID := map[string]Case{}
 	for i, t := range traces {
@@ -403,7 +422,7 @@ func trim(t Case) any {
 }
 
 // Replay re-executes the case of a replay file on the current tree and validates it again.
-func Replay(root, path string) int {
+func Replay(root, path string, lookup func(id string) *Check) int {
 	b, err := os.ReadFile(path)
 	if err != nil {
 		fmt.Println("ERROR:", err)
@@ -427,6 +446,16 @@ func Replay(root, path string) int {
 	env.Vdrive, err = BuildDriver(env, false)
 	if err != nil {
 		fmt.Println("ERROR:", err)
+		return 2
+	}
+	if chk := lookup(rec.Property); chk != nil && chk.NeedCLI {
+		if err := buildCLI(env); err != nil {
+			fmt.Println("ERROR:", err)
+			return 2
+		}
+	}
+	if kind, _ := rec.Case["drv"].(string); kind == "conc" {
+		fmt.Println("ERROR: a concurrent group is not replayable deterministically; re-run the check (bin/vcheck " + rec.Property + ") to look for it again")
 		return 2
 	}
 	tr, err := Execute(env, env.Vdrive, []Case{rec.Case}, 50*time.Second, "replay")
